@@ -139,11 +139,55 @@ SINKS = {
 IOCTL_FICLONE = {0: (DST, W), 2: (SRC, R)}
 
 
+def _units(fx, _memo={}):
+    k = id(fx)
+    if k in _memo and _memo[k][0] is fx:
+        return _memo[k][1]
+    import views
+    us = {}
+    work = [e for lab, e in sorted(views.roles(fx).items()) if e in fx.fns and fx.fns[e].crate in ("libxcp",)]
+    while work:
+        p = work.pop()
+        if p in us or p not in fx.fns:
+            continue
+        g = fx.fns[p]
+        if g.crate not in ("libxcp", "libfs") or g.from_expansion and not g.is_closure:
+            continue
+        try:
+            v = views.view(fx, p)
+        except Exception:
+            v = g
+        us[p] = v
+        for bi, t in v.calls():
+            f_ = t.get("fn") or {}
+            for c in [f_.get("path")] + list(f_.get("fnvals") or []):
+                if c in fx.fns and c not in us:
+                    work.append(c)
+            for a in t["args"]:
+                c_ = a.get("c")
+                if c_ and "fn" in c_ and c_["fn"].get("path") in fx.fns:
+                    work.append(c_["fn"]["path"])
+        for b in v.blocks:
+            for s_ in b["stmts"]:
+                if s_["rv"]["k"] == "agg" and s_["rv"].get("ak") == "closure" and s_["rv"]["closure"] in fx.fns:
+                    work.append(s_["rv"]["closure"])
+    _memo[k] = (fx, us)
+    return us
+
+
 class Roles:
     def __init__(self, fx):
         self.fx = fx
         self.role = {}          # (fn path, local) -> role
-        self.fns = [f for f in ro.fns_in_scope(fx, crates=("libxcp", "libfs"))]
+        # analysis units: the inlined views of the thread roles, of the handle's Drop, and of every workspace
+        # function those views still *call* (libfs's API, decision functions, closures of lazy adaptors) -- so a
+        # value is followed through helpers, builder/context structs and combinator closures field-sensitively
+        self.units = _units(fx)
+        if len(self.units) < 3:
+            # a crate without thread roles (the controls' fixture crate): every function is its own unit
+            self.units = {f.path: f for f in ro.fns_in_scope(fx)}
+        self.fns = list(self.units.values())
+        self.by_path = self.units
         self.frole = {}            # (struct adt, field name) -> role learned from its construction sites
         self.structs = set(p_ for p_, a_ in fx.adts.items() if a_.get("kind") == "struct")
         self.closure_parent = {}   # closure path -> (parent fn, operands)
@@ -157,6 +201,10 @@ class Roles:
                         self.closure_parent[rv["closure"]] = (f, rv["fields"])
         for (fp, l), r in SEEDS.items():
             self.role[(fp, l)] = r
+        for p_ in fx.fns:
+            if p_.endswith(" as libxcp::drivers::CopyDriver>::copy"):
+                self.role[(p_, 2)] = SRC
+                self.role[(p_, 3)] = DST
         self._solve()
 
     def get(self, f, l):
@@ -170,9 +218,18 @@ class Roles:
             return True
         return False
 
-    def place_role(self, f, p):
+    def place_role(self, f, p, _depth=0):
         r = None
         projs = p.get("p", [])
+        if _depth < 6 and any(isinstance(e, dict) and "f" in e for e in projs):
+            # a field of a tuple / struct / closure environment built in this unit: what was put into it
+            fixed = [e for e in projs if isinstance(e, dict) and "f" in e and (e.get("adt"), e.get("n")) in FIELD_ROLES]
+            if not fixed:
+                src = q.agg_field_source(f, p)
+                if src is not None:
+                    sp = op_place(src)
+                    if sp is not None:
+                        return self.place_role(f, sp, _depth + 1)
         variant = None
         for e in projs:
             if isinstance(e, dict) and "dc" in e:
@@ -252,8 +309,8 @@ class Roles:
                     o, p = q.names(t)
                     args = t["args"]
                     # parameters of workspace callees take the join of call-site roles
-                    tgt = fx.fns.get(p)
-                    if tgt is not None and tgt in self.fns:
+                    tgt = self.by_path.get(p)
+                    if tgt is not None:
                         for i, a in enumerate(args):
                             if i < tgt.argc:
                                 if self._set(tgt, i + 1, self.operand_role(f, a)):
@@ -261,8 +318,8 @@ class Roles:
                     # closures invoked through Fn* traits: upvars resolve through closure_parent
                     if o in ITEM_TO_CLOSURE and args:
                         for fv in t["fn"].get("fnvals", []):
-                            cf = fx.fns.get(fv)
-                            if cf is not None and cf in self.fns and cf.argc >= 2:
+                            cf = self.by_path.get(fv)
+                            if cf is not None and cf.argc >= 2:
                                 if self._set(cf, 2, self.operand_role(f, args[0])):
                                     changed = True
                     r = NONE
@@ -272,7 +329,7 @@ class Roles:
                                 r = join(r, self.operand_role(f, args[i]))
                     elif o in PRODUCES:
                         r = PRODUCES[o]
-                    elif tgt is not None and tgt in self.fns:
+                    elif tgt is not None:
                         # result of a workspace function: role of its return place
                         r = self.get(tgt, 0)
                     if o in ABSORBS:
